@@ -179,12 +179,6 @@ Proof.
   apply String.eqb_eq in H2. auto.
 Qed.
 
-(* the guard of the preservation theorem, per definition and per program *)
-Definition def_guard (p : fcprog) (d : fdef) : bool :=
-  frag p (fdbody d) && ws (compile_ctx (fdctx d)) (fdbody d) && nocap (fdbody d)
-  && (if String.eqb (fdname d) "main" then data_ty p (fterm_type (fdbody d)) else true).
-Definition prog_guard (p : fcprog) : bool := forallb (def_guard p) (fcpdefs p).
-
 Section Prog.
   Variable p : fcprog.
   Variable c : cprog.
